@@ -3949,3 +3949,7 @@ mod tests {
         assert!(serde_json::from_str::<Fv>(&deep_json).is_err());
     }
 }
+
+#[cfg(kani)]
+#[path = "/verif/harness/anda_db_schema/field.rs"]
+mod verif_kani;
